@@ -56,7 +56,7 @@ def build_tbl(proc_functional: utils.ProcFunctional):
             try:
                 assert isinstance(arg.value, int | float)
                 return AS.Float(_fn_real(arg.value))
-            except (TypeError, ValueError, AssertionError):
+            except (TypeError, ValueError, AssertionError, OverflowError):
                 try:
                     return AS.Complex(_fn_complex(arg.value))
                 except (OverflowError, ValueError):
